@@ -117,11 +117,15 @@ impl<'tx> Tx<'tx> {
         };
         verif_at!(TxBeginAfterLock, writable);
         let mut freelist = db.inner.freelist.lock()?.clone();
-        let mut meta = db.inner.meta()?;
-        verif_at!(TxBeginAfterMeta, writable);
-        debug_assert!(meta.valid());
+        let mut meta;
         {
+            // The meta page is read while the list of open readers is locked: a reader must
+            // be registered for the snapshot it picked before any writer decides which
+            // pages to release, or those of the reader's snapshot could be handed out.
             let mut open_ro_txs = db.inner.open_ro_txs.lock().unwrap();
+            meta = db.inner.meta()?;
+            verif_at!(TxBeginAfterMeta, writable);
+            debug_assert!(meta.valid());
             if writable {
                 meta.tx_id += 1;
                 if open_ro_txs.len() > 0 {
